@@ -6,6 +6,7 @@
  * userdata tags of surviving objects.  Partitioned by (root, configuration).
  */
 #include "hwmc.h"
+#include "private/private.h"
 #include <inttypes.h>
 #include "univ.h"
 #include "canon.h"
@@ -90,6 +91,8 @@ static void explore(int root, int cfg, int maxdepth, const struct opscope *sc, s
           int found = 0; for (unsigned z = 0; z < nA; z++) if (ob[z]->gp_index == W[q].gp) { found = 1; break; }
           if (found) continue;
           if (ops[oi].kind == OP_GROUP && W[q].type == HWLOC_OBJ_GROUP && W[q].gkind > (unsigned)ops[oi].a) continue;
+          /* ... grouping by distances inserts Groups of kind HWLOC_GROUP_KIND_DISTANCE under the same priority rule */
+          if (ops[oi].kind == OP_DIST_ADD && (ops[oi].flags & HWLOC_DISTANCES_ADD_FLAG_GROUP) && W[q].type == HWLOC_OBJ_GROUP && W[q].gkind > HWLOC_GROUP_KIND_DISTANCE) continue;
           /* ... and a Group that refuses merging takes the place of an equal mergeable one (by design of the merge rules) */
           if (ops[oi].kind == OP_GROUP && W[q].type == HWLOC_OBJ_GROUP && ops[oi].b && !W[q].dont_merge) continue;
           char key[128]; snprintf(key, sizeof(key), "c02.object-vanished@%s", where);
